@@ -307,6 +307,11 @@ func archive(workerID string, seed *models.Item) {
 						io.Copy(io.Discard, resp.Body)
 						resp.Body.Close()
 
+						// This response goes to the WARC file too: wait for it to be written
+						if !config.Get().WARCWriteAsync {
+							<-feedbackChan
+						}
+
 						time.Sleep(retrySleepTime)
 						continue
 					} else {
@@ -316,6 +321,11 @@ func archive(workerID string, seed *models.Item) {
 						// Consume body, needed to avoid leaking RAM & storage
 						io.Copy(io.Discard, resp.Body)
 						resp.Body.Close()
+
+						// This response goes to the WARC file too: wait for it to be written
+						if !config.Get().WARCWriteAsync {
+							<-feedbackChan
+						}
 
 						return
 					}
@@ -339,6 +349,12 @@ func archive(workerID string, seed *models.Item) {
 			if err != nil {
 				logger.Error("unable to process body", "err", err.Error(), "item_id", item.GetShortID(), "seed_id", seed.GetShortID(), "depth", item.GetDepth(), "hops", item.GetURL().GetHops())
 				item.SetStatus(models.ItemFailed)
+
+				// Whatever was captured of this response goes to the WARC file: wait for the writer
+				if !config.Get().WARCWriteAsync {
+					<-feedbackChan
+				}
+
 				return
 			}
 
